@@ -590,6 +590,7 @@ func (c *checkCtx) replayOne(path string) int {
 		Family string
 		Case   map[string]J
 		Opts   map[string]string
+		Result map[string]J
 	}
 	if err := json.Unmarshal(b, &rf); err != nil {
 		infra("bad replay file: %v", err)
@@ -597,10 +598,26 @@ func (c *checkCtx) replayOne(path string) int {
 	cf := filepath.Join(c.work, "one.ndjson")
 	cb, _ := json.Marshal(rf.Case)
 	_ = os.WriteFile(cf, append(cb, '\n'), 0o644)
-	if rf.Family == "engine-trace" {
+	if strings.HasSuffix(rf.Family, "-trace") {
 		// a rejected recorded trace: record the case again on the current tree and have TLC validate the new trace
-		traces := c.recordTraces("engine", cf, replayOpts{workers: 1, timeout: 8 * time.Second, opts: rf.Opts}, engineInitLine)
-		c.validateTraces("engine", "EngineTrace", "EngineTrace.cfg", traces, traceOpts{})
+		fam, module, cfg := strings.TrimSuffix(rf.Family, "-trace"), "EngineTrace", "EngineTrace.cfg"
+		if m, ok := rf.Result["trace_module"].(string); ok {
+			module, _ = rf.Result["trace_module"].(string), m
+			cfg, _ = rf.Result["trace_cfg"].(string)
+			fam, _ = rf.Result["record_family"].(string)
+		}
+		ro := replayOpts{workers: 1, timeout: 60 * time.Second, opts: rf.Opts}
+		var traces []*rtrace
+		switch fromResult, _ := rf.Result["init_from_result"].(bool); {
+		case fromResult:
+			traces = c.recordTracesInit(fam, cf, ro)
+		case fam == "engine":
+			traces = c.recordTraces(fam, cf, ro, engineInitLine)
+		default:
+			traces = c.recordTraces(fam, cf, ro, func(map[string]J) map[string]J { return map[string]J{} })
+		}
+		c.confirmed = 1 << 30 // a replay is the confirmation
+		c.validateTraces(fam, module, cfg, traces, traceOpts{})
 		for _, t := range traces {
 			for _, l := range t.lines {
 				fmt.Println(string(l))
@@ -610,7 +627,7 @@ func (c *checkCtx) replayOne(path string) int {
 			fmt.Printf("VIOLATION property=%s replay=%s\n", c.id, path)
 			return 1
 		}
-		fmt.Println("the recorded trace is accepted by EngineTrace.tla")
+		fmt.Println("the recorded trace is accepted by " + module + ".tla")
 		return 0
 	}
 	_, res := c.replay(rf.Family, cf, replayOpts{workers: 1, opts: rf.Opts})
